@@ -1,13 +1,13 @@
 SPECIFICATION Spec
 CONSTANTS
-  Scenarios = {"local", "remote", "localfar", "contest", "claim", "success", "breach", "coop", "shift", "rshift"}
+  Scenarios = {"local", "remote", "localfar", "contest", "rcontest", "claim", "success", "breach", "coop", "shift", "rshift", "alocal", "aremote", "acontest", "arcontest", "aclaim", "asuccess", "tlocal", "tremote", "tcontest", "trcontest", "tclaim", "tsuccess"}
   MaxCrashes = 2
   F8Fixed = TRUE
   F9Fixed = TRUE
   FccFixed = TRUE
   CommitBeforeCheckpoint = TRUE
   EnvAtomic = TRUE
-INVARIANTS TypeOK ResolvedOnlyWhenEmpty MarkedOnlyWhenResolved NoPendingCloseWithEmptyLog UpstreamConsistent
+INVARIANTS TypeOK ResolvedOnlyWhenEmpty MarkedOnlyWhenResolved NoPendingCloseWithEmptyLog UpstreamConsistent SweepsSignable
 PROPERTIES NoLossProp
 VIEW View
 CHECK_DEADLOCK TRUE
